@@ -67,6 +67,51 @@ fn replay_case(case: &Value) -> bool {
                 Err(core::Stop::Exhausted) => println!("=> resources exhausted"),
             }
         }
+        "host_call_history" => {
+            // the calls in order; stateful argument values (cells, iterators) are made once per
+            // (position, recipe) and persist from call to call
+            let text = case["program"].as_str().unwrap_or("");
+            println!("program:\n{text}");
+            let f = match eval(text) {
+                Ok(Variable::Function(f)) => f,
+                other => {
+                    println!("=> does not evaluate to a function: {:?}", other.map(|v| canon_typed(&v)));
+                    return true;
+                }
+            };
+            let mut kept: std::collections::HashMap<(usize, String), Variable> = std::collections::HashMap::new();
+            for call in case["calls_so_far_with_persisting_stateful_values"].as_array().cloned().unwrap_or_default() {
+                let srcs: Vec<String> = call.as_array().map(|a| a.iter().map(|x| x.as_str().unwrap_or("").to_string()).collect()).unwrap_or_default();
+                let mut args = Vec::new();
+                for (slot, src) in srcs.iter().enumerate() {
+                    if !kept.contains_key(&(slot, src.clone())) {
+                        match eval(src) {
+                            Ok(v) => {
+                                kept.insert((slot, src.clone()), v);
+                            }
+                            Err(e) => {
+                                println!("argument {src}: {e}");
+                                return true;
+                            }
+                        }
+                    }
+                    args.push(kept[&(slot, src.clone())].clone());
+                }
+                println!("host call with ({})", srcs.join(", "));
+                match core::guard(|| f.clone().create_call(args).map(|c| c.exec())) {
+                    Ok(Ok(Ok(v))) => println!("=> value {}", canon_typed(&v)),
+                    Ok(Ok(Err(e))) => println!("=> run-time error {e:?}"),
+                    Ok(Err(e)) => println!("=> host call rejected: {e}"),
+                    Err(core::Stop::Panic(p)) => println!("=> PANIC {} at {}", p.msg, p.loc),
+                    Err(core::Stop::Exhausted) => println!("=> resources exhausted"),
+                }
+                for ((slot, src), v) in &kept {
+                    if matches!(v, Variable::Mut(_)) {
+                        println!("   argument #{slot} {src} now holds {}", canon_typed(v));
+                    }
+                }
+            }
+        }
         "repl" => {
             let mut interp = Interpreter::with_stdlib();
             for g in case["groups"].as_array().cloned().unwrap_or_default() {
